@@ -184,6 +184,8 @@ class Straight:
                     continue
                 if isinstance(s, ast.AugAssign) and isinstance(s.target, ast.Name):
                     continue
+                if isinstance(s, ast.If) and Straight._only_name_assigns(s):
+                    continue
                 return False
         return True
 
